@@ -12,6 +12,7 @@ import z3
 from .common import *
 from vf.unit import ProofUnit
 from vf.model import *
+from .tokens import RangeTextOracle
 
 TOKEN = Tup(INT, STR); ITEM = Tup(Opt(INT), Opt(INT))
 tks = sort_of(TOKEN); ttype = tks.accessor(0, 0); ttext = tks.accessor(0, 1)
@@ -182,5 +183,5 @@ def units_range_init():
         def make(ctx, shape=shape):
             return {"contract": init_contract(shape), "callees": CALLEES(), "spec_functions": SPECF, "label": "shape lo=%d ell=%d hi=%d" % shape, "assumptions": ASSUMPTIONS}
         out.append(ProofUnit("ranges.Range.__init__/%d%d%d" % shape, "Range.__init__ token loop, current item of shape (lower kind %d, ellipsis %d, upper kind %d)" % shape,
-                             ["C01"], make, None, weight=5, timeout=1200))
+                             ["C01"], make, RangeTextOracle(), xcheck=False, weight=5, timeout=1200))
     return out
